@@ -194,7 +194,7 @@ func (e *Engine) rethrowIfEngine(r any) {
 	switch r.(type) {
 	case nil:
 		return
-	case targetPanic:
+	case targetPanic, goexitSignal:
 		return
 	}
 	panic(r)
@@ -214,7 +214,7 @@ func (e *Engine) annotate(fr *frame, r any) any {
 			}
 		}
 		return x
-	case nil, pathAbort:
+	case nil, pathAbort, goexitSignal:
 		return r
 	case *engineError:
 		if !strings.Contains(x.msg, "\n  in ") {
@@ -798,7 +798,15 @@ func (e *Engine) executePhis(fr *frame) []ssa.Instruction {
 	return nonPhis
 }
 
+// goexitSignal unwinds a goroutine that called runtime.Goexit: deferred calls run, recover() does not see it.
+type goexitSignal struct{}
+
 func (e *Engine) doRecover(caller *frame) Value {
+	if caller != nil && caller.caller != nil {
+		if _, exiting := caller.caller.panic.(goexitSignal); exiting {
+			return Iface{}
+		}
+	}
 	if caller != nil && !caller.panicking && caller.caller != nil && caller.caller.panicking {
 		caller.caller.panicking = false
 		p := caller.caller.panic
